@@ -37,7 +37,7 @@ func LargeGenOpts() GenOpts {
 	return GenOpts{MaxAgencies: 6, MaxRoutes: 12, MaxStops: 40, MaxTransfers: 10, MaxServices: 10, MaxShapes: 6, MaxPoints: 20, MaxTrips: 20, MaxStopTimes: 25, MaxFreq: 4}
 }
 
-var idShapes = []string{"%s%d", "%s%d", "%s_%d", "%s %d", "%s%d ", " %s%d", "%s,%d", "%s\"%d", "%s\n%d", "é%s%d", "%s%d漢", "%.0s%d", "%.0s0%d", "%s#%d", "%s%dN"}
+var idShapes = []string{"%s%d", "%s%d", "%s_%d", "%s %d", "%s%d ", " %s%d", "%s,%d", "%s\"%d", "%s\n%d", "é%s%d", "%s%d漢", "%.0s%d", "%.0s0%d", "%s#%d", "%s%dN", "#%s%d", ";%s%d", "//%s%d"}
 var plainShapes = []string{"%s%d", "%s_%d", "%.0s%d", "%s%dN"}
 
 type idPool struct {
@@ -72,7 +72,7 @@ func (p *idPool) draw(t *rapid.T, label, prefix string, plain bool) string {
 	}
 }
 
-var texts = []string{"", "", "Main St", "a,b", "say \"hi\"", "line1\nline2", "Zürich HB", "東京", " padded ", "x", "http://example.com/?a=1&b=2", "0", "NULL", "'", "a;b\tc"}
+var texts = []string{"", "", "Main St", "a,b", "say \"hi\"", "line1\nline2", "Zürich HB", "東京", " padded ", "x", "http://example.com/?a=1&b=2", "0", "NULL", "'", "a;b\tc", "#2 Dock Gate", "# comment", "//x", ";"}
 
 func genText(t *rapid.T, label string) string { return rapid.SampledFrom(texts).Draw(t, label) }
 
@@ -581,7 +581,7 @@ func GenPresentation(t *rapid.T, ts Tables) (Presentation, int) {
 			fp.Extra = append(fp.Extra, ExtraCol{Name: name, Cells: cells})
 		}
 		if rapid.Bool().Draw(t, "permuteCols") {
-			fp.ColOrder = rapid.Permutation(seq(len(tb.Header) + nExtra)).Draw(t, "colOrder")
+			fp.ColOrder = rapid.Permutation(seq(len(tb.Header)+nExtra)).Draw(t, "colOrder")
 		}
 		fp.BOM = rapid.IntRange(0, 3).Draw(t, "bom") == 0
 		fp.CRLF = rapid.IntRange(0, 2).Draw(t, "crlf") == 0
@@ -618,6 +618,10 @@ func GenPresentation(t *rapid.T, ts Tables) (Presentation, int) {
 			Pos:     rapid.IntRange(0, present).Draw(t, "extraMemberPos")})
 	}
 	if nExtraM > 0 {
+		dims++
+	}
+	if rapid.IntRange(0, 7).Draw(t, "zipComment?") == 0 {
+		p.Comment = rapid.SampledFrom([]string{"x", "generated 2024-01-01 by export tool v1.2", strings.Repeat("archive comment ", 20), strings.Repeat("c", 65535)}).Draw(t, "zipComment")
 		dims++
 	}
 	var anyExtra, anyPerm, anyBOM, anyCRLF, anyNoNL, anyQuote, anyStore bool
@@ -687,6 +691,17 @@ func InflateFeed(f *Feed, n int) *Feed {
 			st := tmpl
 			st.Seq = maxSeq + 1 + k
 			st.StopID = g.Stops[(k*31)%len(g.Stops)].ID
+			g.StopTimes = append(g.StopTimes, st)
+		}
+		// a trip of its own after the long one, so that the long group is closed by a fresh one
+		tail := t
+		tail.ID = t.ID + "~tail"
+		g.Trips = append(g.Trips, tail)
+		for k := 0; k < 2; k++ {
+			st := tmpl
+			st.TripID = tail.ID
+			st.Seq = k + 1
+			st.StopID = g.Stops[k%len(g.Stops)].ID
 			g.StopTimes = append(g.StopTimes, st)
 		}
 	}
